@@ -56,3 +56,8 @@ func (m *Map) VerifDump(limit int) (nodes []VerifNode, parentsOK bool, size int,
 func (m *Map) VerifLowerEntry(key KeyType) *Entry {
 	return m.getLowerEntry(key)
 }
+
+// VerifVersion returns the modification counter.
+func (m *Map) VerifVersion() int {
+	return m.version
+}
